@@ -61,6 +61,7 @@ func caseC02(c *Ctx) {
 	p.MaxEnts = 90
 	p.Scale(4, "NewBatch", "RemoveEntity", "BatchRemoveEntities", "NewEntity")
 	p.W["Reset"] = 2
+	p.W["DumpKeep"], p.W["ResetLoad"] = 3, 6
 	p.Zero("QueryCheck", "RegisterType", "Set", "WritePtr", "Assign")
 	o := Opts{Model: true, Sweep: c.Case%2 == 0, Inv: true, Ledger: true, Track: true, NoTrans: true}
 	s := NewSess(cfg, o)
